@@ -8,6 +8,18 @@ let bytes_of_string (s : string) : n list =
 let string_of_bytes (b : n list) : string =
   String.concat "" (List.map (fun x -> String.make 1 (Char.chr (int_of_n x))) b)
 
+(* ~xx in an algorithm name of a case line stands for the byte xx *)
+let unescape_name (s : string) : string =
+  let b = Buffer.create (String.length s) and i = ref 0 and n = String.length s in
+  while !i < n do
+    if s.[!i] = '~' && !i + 2 < n + 0 && !i + 2 <= n - 1 then begin
+      (match int_of_string_opt ("0x" ^ String.sub s (!i + 1) 2) with
+       | Some v -> Buffer.add_char b (Char.chr v); i := !i + 3
+       | None -> Buffer.add_char b s.[!i]; incr i)
+    end else begin Buffer.add_char b s.[!i]; incr i end
+  done;
+  Buffer.contents b
+
 let split_on_string (sep : string) (s : string) : string list =
   let n = String.length s and k = String.length sep in
   let parts = ref [] and cur = Buffer.create 64 and i = ref 0 in
@@ -107,7 +119,7 @@ let encode_sym (in_set : int -> bool) (s : string) : n list =
   | ["CR"; sid; alg; cwnd; mss] ->
     ok_bytes (serialize_msg (MCr { c_sid = n_of_hex sid; c_init_cwnd = n_of_hex cwnd; c_mss = n_of_hex mss;
                                    c_src_ip = n_of_int 1; c_src_port = n_of_int 2; c_dst_ip = n_of_int 3; c_dst_port = n_of_int 4;
-                                   c_alg = if alg = "-" then None else Some (bytes_of_string alg) }))
+                                   c_alg = if alg = "-" then None else Some (bytes_of_string (unescape_name alg)) }))
   | ["MS"; sid; u; nf; fs] ->
     let uid = if u.[0] = 'p' then begin
         let k = int_of_string (String.sub u 1 (String.length u - 1)) in
@@ -326,6 +338,11 @@ let cmd_loop (_param : string) (arg : string) (_impl : string) : string * string
           | "GET" :: _ -> Some it
           | _ -> None in
         let differs f = proj f items <> proj f model_items in
+        (* C18, last clause: whether the run call returns success or an error is decided by how the
+           history ends (stop request or end of the script: success; a receive error or an
+           undecodable message with no stop requested: error).  Same log, other result: C18. *)
+        if not (starts_with "PANIC" tail) && _impl <> "PANIC" && items = model_items && nth_tok tail 0 <> r then
+          fails := (if r = "ERR" then "C18:success-without-a-stop-request" else "C18:stop-request-did-not-yield-success") :: !fails;
         if not (starts_with "PANIC" tail) && _impl <> "PANIC" then begin
           let d02 = differs p02 in
           let d15 = differs p15 in
